@@ -9,6 +9,7 @@ from typing import Awaitable, Callable
 from . import numbers
 from .numbers.optionnumbers import OptionNumber
 from .numbers import codes
+from . import error
 from .error import ConstructionRenderableError
 from .message import Message
 from .optiontypes import BlockOption
@@ -75,6 +76,11 @@ class Block1Spool:
         block_key = _extract_block_key(req)
 
         if req.opt.block1.block_number == 0:
+            # (as for every later block: a block is as long as its size says,
+            # a final one may be shorter -- otherwise later blocks would be
+            # placed behind data that is not block 0)
+            if not req.opt.block1.is_valid_for_payload_size(len(req.payload)):
+                raise error.BadRequest("Payload size does not match Block1")
             # silently discarding any old incomplete operation
             self._assemblies[block_key] = req
         else:
